@@ -3,6 +3,7 @@
 (* encoder-like worker on a shared tree).  harness/drivers/c24.py overwrites this module in  *)
 (* TLC's working directory with the operation lists extracted by strace from the REAL worker *)
 (* commands of `vc2-test-case-generator --parallel`.                                        *)
+EXTENDS Sequences
 O(k, p, x) == [k |-> k, p |-> p, q |-> <<>>, x |-> x]
 Dec == <<"out", "cfg", "decoder">>
 Enc == <<"out", "cfg", "encoder">>
